@@ -138,3 +138,21 @@ claim('C18', 'Lean 4 proofs about the model scanner (whitespace / comment / blan
       'model scanner\'s statement list must give that image too.',
       NOTE + ' Runtime behaviour the model cannot exhibit: Python re on the real patterns. A data directive is always last on its line.',
       category='proof')
+
+claim('C14', 'Lean 4 proofs (fail-closed run function, error propagation, no false success, bounded image iteration) + corruption-stream observation with watchdog and sentinel files',
+      'PARTIAL. Kernel-checked theorems on the model: a failed assembly leaves the file system unchanged and reports failure, a '
+      'successful one writes exactly the image and nothing else; an error of any line (unresolvable label, value that does not fit, '
+      'no accepting variant, unknown instruction) makes the whole assembly fail; the image is a bounded iteration on which a zero-length '
+      'line has no influence; every model function is total (fuel-indexed ones never exhaust their fuel: C07, C09). Observed, not proved: '
+      'that the Python process terminates (watchdog 5 s + one retry at 60 s) and that nothing fails after the image was written '
+      '(output file pre-created with sentinel content in half of the cases). Each run feeds single and double corruptions of valid '
+      'programs (incl. zero-length directives anywhere and very long tokens) and single injected mandatory faults to the real CLI.',
+      NOTE + ' Runtime behaviour the model cannot exhibit: process termination, OS file-system effects.')
+claim('C15', 'Lean 4 proofs (order-insensitivity of every consumer of a hash-ordered collection) + static set-iteration scan + multi-hash-seed subprocess runs',
+      'PARTIAL. Kernel-checked theorems: operand acceptance, operand-set matching, variant selection and label lookup are invariant '
+      'under permutation of the register collection; locating an included file and the de-duplicated directory collection are '
+      'invariant under permutation of the include directories. That these are the only hash-ordered collections the assembler '
+      'iterates is established on every run by an AST scan of /repo/src/bespokeasm/assembler (new set-iteration sites break the '
+      'correspondence) and by assembling each generated case in real subprocesses under several PYTHONHASHSEED values, both -I orders, '
+      'two working directories and a scrubbed environment: image, listing, hex, Intel HEX and compact hex must be byte-identical.',
+      NOTE + ' Runtime behaviour the model cannot exhibit: CPython hash randomisation, environment, working directory.')
